@@ -145,7 +145,8 @@ pub fn finish(ctx: &Ctx, out: Outcome) -> i32 {
         println!("KNOWN-FINDING: property={} {} [{} — {} occurrence(s) in this run]", ctx.prop, h.1, h.0, h.2);
     }
     if unlisted.is_empty() {
-        println!("OK property={} tier={} wall={:.1}s evidence={}", ctx.prop, ctx.tier.name(), ctx.wall(), evpath.display());
+        let capped = ev["coverage"]["capped"].as_bool().unwrap_or(false);
+        println!("OK property={} tier={} wall={:.1}s{} evidence={}", ctx.prop, ctx.tier.name(), ctx.wall(), if capped { " search=capped-by-time-budget(see evidence)" } else { "" }, evpath.display());
         return 0;
     }
     let rdir = std::env::var("VERIF_EVIDENCE_DIR").map(|d| std::path::PathBuf::from(d).join("replays")).unwrap_or_else(|_| ctx.verif_dir.join("replays"));
